@@ -2,6 +2,7 @@ package checks
 
 import (
 	"fmt"
+	"sort"
 	"strings"
 	"sync/atomic"
 
@@ -79,8 +80,9 @@ func queryConfigs(thorough bool) []qcfg {
 	}
 	b := qcfg{
 		name: "HR(S,N)+GSI(g,n)",
+		// (gsinv is keyed on the table's own key attributes in the other order: every item is in it)
 		cfg: drv.TableCfg{Hash: "h", HashT: "S", Range: "r", RangeT: "N", Billing: "PAY_PER_REQUEST",
-			GSI: []drv.IndexCfg{{Name: "gsi", Hash: "g", HashT: "S", Range: "n", RangeT: "N"}}},
+			GSI: []drv.IndexCfg{{Name: "gsi", Hash: "g", HashT: "S", Range: "n", RangeT: "N"}, {Name: "gsinv", Hash: "r", HashT: "N", Range: "h", RangeT: "S"}}},
 		universe: []val.Item{
 			it("h", val.S("p"), "r", val.N("1"), "g", val.S("x"), "n", val.N("5"), "a", val.S("v")),
 			it("h", val.S("p"), "r", val.N("2"), "g", val.S("x"), "n", val.N("5")),
@@ -88,9 +90,9 @@ func queryConfigs(thorough bool) []qcfg {
 			it("h", val.S("p"), "r", val.N("9"), "g", val.S("x"), "n", val.N("40"), "a", val.S("v")),
 			it("h", val.S("q"), "r", val.N("1"), "g", val.S("y"), "n", val.N("7")),
 		},
-		hashVals:  map[string][]val.V{"": sv("p", "q", "zz"), "gsi": sv("x", "y")},
-		rangeVals: map[string][]val.V{"": nv("1", "2", "10", "9", "5"), "gsi": nv("5", "40", "7", "6")},
-		prefixes:  map[string][]val.V{},
+		hashVals:  map[string][]val.V{"": sv("p", "q", "zz"), "gsi": sv("x", "y"), "gsinv": nv("1", "10", "3")},
+		rangeVals: map[string][]val.V{"": nv("1", "2", "10", "9", "5"), "gsi": nv("5", "40", "7", "6"), "gsinv": sv("p", "q")},
+		prefixes:  map[string][]val.V{"gsinv": sv("p")},
 	}
 	if thorough {
 		b.universe = append(b.universe,
@@ -235,6 +237,25 @@ func universeAlphabet(c qcfg) func(m *model.Model) []drv.Op {
 				k[c.cfg.Range] = it[c.cfg.Range]
 			}
 			ops = append(ops, drv.Op{K: drv.KDel, Tag: "Del", Table: "tab", Key: k})
+			// the same item written by an UpdateItem (which creates it when the key is absent)
+			{
+				var acts []rx.Action
+				vals := map[string]val.V{}
+				names := make([]string, 0, len(it))
+				for n := range it {
+					if n != c.cfg.Hash && n != c.cfg.Range {
+						names = append(names, n)
+					}
+				}
+				sort.Strings(names)
+				for _, n := range names {
+					acts = append(acts, rx.Set(n, rx.RV(":"+n)))
+					vals[":"+n] = it[n]
+				}
+				if len(acts) > 0 {
+					ops = append(ops, drv.Op{K: drv.KUpd, Tag: "Upd(sets every attribute)", Table: "tab", Key: k, Upd: rx.U(acts...), Values: vals})
+				}
+			}
 			// writes that are rejected because of an index key type (on stored and on absent keys):
 			// whatever they leave behind shows in the queries of the states that follow
 			if len(c.cfg.GSI) > 0 {
